@@ -65,6 +65,7 @@ def capStep (st : CapState) (ts : List String) : CapState × List String :=
     | _, _ => ({ st with bad := true }, [])
   | ["gfilter", l] => ({ st with global := l.toNat? }, [])
   | ["pass", _] => (st, [])
+  | ["nestedtracing", _] => ({ st with oracleOnly := true }, [])   -- values whose Debug impl uses tracing: judged by the harness only
   | ["probe", _, _] => (st, [])    -- the storage is read in mid-run: reading changes nothing
   | ["nested", _] => (st, [])     -- nested `Layered` values instead of a `Vec` of layers: the same stack
   | ["perlayer", _] => (st, [])   -- per-layer `Filtered` with an unfiltered layer present ≡ the layer's own filter
